@@ -223,16 +223,36 @@ pub fn sectors(src: &[u8]) -> Vec<Span> {
     (0..src.len()).step_by(16).map(|s| Span(s, (s + 16).min(src.len()))).collect()
 }
 
-pub const SINGLE_KINDS: [&str; 16] = [
+pub const SINGLE_KINDS: [&str; 18] = [
     "eof", "torn_tail", "lost_token", "lost_line", "lost_sector", "dup_token", "dup_line", "swap_tokens", "swap_lines",
-    "bit_flip", "byte_subst", "crlf", "token_subst", "token_insert", "own_subst", "line_insert",
+    "bit_flip", "byte_subst", "crlf", "token_subst", "token_insert", "own_subst", "line_insert", "splice_eol",
+    "literal_boundary",
 ];
+
+/// Values an integer literal is retyped as (range boundaries of char, short, i32 and beyond).
+pub const BOUNDARY: [&str; 14] = [
+    "0", "1", "-1", "127", "128", "255", "256", "32768", "65535", "65536", "2000000000", "0x7fffffff", "-2147483648", "99999999999",
+];
+
+/// spans of the integer-literal tokens of a program
+pub fn int_tokens(src: &[u8]) -> Vec<Span> {
+    tokens(src).into_iter().filter(|t| src[t.0].is_ascii_digit()).collect()
+}
+
+/// positions where a line ends (before each LF, and the end of a text that lacks a final LF)
+pub fn line_ends(src: &[u8]) -> Vec<usize> {
+    let mut v: Vec<usize> = src.iter().enumerate().filter(|(_, b)| **b == b'\n').map(|(i, _)| i).collect();
+    if !src.ends_with(b"\n") {
+        v.push(src.len());
+    }
+    v
+}
 
 /// Whole lines a confused producer may splice in at a line boundary: unbalanced or operand-less
 /// directives, comment and string openers/closers.
-pub const LINES: [&str; 22] = [
+pub const LINES: [&str; 23] = [
     "#endif", "#else", "#elif 1", "#elif", "#if", "#if 0", "#if 1", "#ifdef", "#ifndef X", "#define", "#define X X", "#undef",
-    "#undef X", "#include", "#include \"nofile.h\"", "#include <", "#error", "#error stop", "#", "/*", "*/", "\"",
+    "#undef X", "#include", "#include \"nofile.h\"", "#include <", "#error", "#error stop", "#", "/*", "*/", "\"", "\\",
 ];
 
 /// distinct token texts of a program, in order of first appearance
@@ -267,6 +287,8 @@ pub fn space(kind: &str, src: &[u8]) -> usize {
         "token_insert" => (t + 1) * DICT.len(),
         "own_subst" => t * own_vocabulary(src).len(),
         "line_insert" => (n + 1) * LINES.len(),
+        "splice_eol" => line_ends(src).len(),
+        "literal_boundary" => int_tokens(src).len() * BOUNDARY.len(),
         _ => 0,
     }
 }
@@ -316,6 +338,20 @@ pub fn nth(kind: &str, src: &[u8], idx: usize) -> SrcFault {
             let voc = own_vocabulary(src);
             let s = tokens(src)[idx / voc.len()];
             SrcFault::TokenSubst(s.0, s.1, String::from_utf8_lossy(&voc[idx % voc.len()]).to_string())
+        }
+        "splice_eol" => {
+            // a backslash appears just before a line end: the line is spliced with the next one
+            // (or with nothing, at the end of the text)
+            let e = line_ends(src)[idx];
+            if e == src.len() {
+                SrcFault::InsertRaw(e, "\\\n".to_string())
+            } else {
+                SrcFault::InsertRaw(e, "\\".to_string())
+            }
+        }
+        "literal_boundary" => {
+            let t = int_tokens(src)[idx / BOUNDARY.len()];
+            SrcFault::TokenSubst(t.0, t.1, BOUNDARY[idx % BOUNDARY.len()].to_string())
         }
         "line_insert" => {
             let l = lines(src);
